@@ -20,6 +20,7 @@ import (
 	"sort"
 	"strconv"
 	"strings"
+	"time"
 
 	"elaverif/harness/hx"
 
@@ -136,7 +137,42 @@ func ver(s string) *vx.Immutable {
 	return st.vers[i]
 }
 
+// hung is set once an operation of the implementation did not return: the goroutine cannot be
+// stopped, so every later op is answered without touching the treaps again.
+var hung bool
+
+// exec runs one op under a watchdog: a treap damaged into a cyclic structure makes Get / ForEach /
+// iterator steps loop for ever, which would otherwise end the run without a failing input.
 func exec(t []string) string {
+	if hung {
+		return "skipped-after-hang"
+	}
+	type res struct {
+		out string
+		p   interface{}
+	}
+	ch := make(chan res, 1)
+	go func() {
+		defer func() {
+			if p := recover(); p != nil {
+				ch <- res{p: p}
+			}
+		}()
+		ch <- res{out: execOp(t)}
+	}()
+	select {
+	case r := <-ch:
+		if r.p != nil {
+			panic(r.p)
+		}
+		return r.out
+	case <-time.After(30 * time.Second):
+		hung = true
+		return "hang"
+	}
+}
+
+func execOp(t []string) string {
 	if st == nil {
 		st = newState()
 	}
@@ -488,6 +524,12 @@ func oracle(t []string, out string) *hx.Violation {
 	}
 	if out == "panic" {
 		return viol("treap-panic", "treap operation panicked: "+hx.LastPanic())
+	}
+	if out == "hang" {
+		return viol("treap-hang", "treap operation did not return within 30 s (cyclic structure?)")
+	}
+	if out == "skipped-after-hang" {
+		return nil
 	}
 	o := os_
 	key := func(s string) string { return string(optBytes(s)) }
